@@ -14,6 +14,7 @@ structure St where
   c : Cfg := {}
   jfNum : Int := 0
   jfDen : Int := 1
+  fnUntil : Nat := 0
   nontrivial : Nat := 0
   checkedDelays : Nat := 0
   randomDelays : Nat := 0
@@ -42,10 +43,12 @@ def checkSeq (st : St) (n : Nat) (step : Int) (obs : List Int) : Option String Ã
     | _ + 1, [] => (some "fewer delays than requested", rnd)
     | fuel + 1, o :: rest =>
       let elapsed := (k : Int) * step
-      let useFn := c.delayFn != -2 && c.delayFn != -1
+      -- a delay function that answers for the first `fnUntil` failures only declines (-1) afterwards
+      let fnNow : Int := if st.fnUntil != 0 && k â‰¥ st.fnUntil then -1 else c.delayFn
+      let useFn := fnNow != -2 && fnNow != -1
       let ranged := c.delay == 0 && c.delayMin != 0 && c.delayMax != 0 && !useFn
       -- un-jittered value and new backoff state from the model (ranged value unknown: handled by bounds)
-      let (d, nl) := if useFn then (c.delayFn, last) else fixedOrRandom c last k 0
+      let (d, nl) := if useFn then (fnNow, last) else fixedOrRandom c last k 0
       let (lo, hi) :=
         if ranged then
           let e1 := envelope st c.delayMin
@@ -65,7 +68,11 @@ def check (st : St) (toks : List String) (obs : Option String) : St Ã— Option St
   | ["cfg", d, md, fn, fd, mn, mx, j, jn, jd, mdur, dfn] =>
     ({ st with c := { delay := int! d, maxDelay := int! md, delayFactor := f32 (int! fn) (int! fd), delayMin := int! mn, delayMax := int! mx,
                       jitter := int! j, jitterFactor := f32 (int! jn) (int! jd), maxDuration := int! mdur, delayFn := int! dfn },
-               jfNum := int! jn, jfDen := int! jd }, none)
+               jfNum := int! jn, jfDen := int! jd, fnUntil := 0 }, none)
+  | ["cfg", d, md, fn, fd, mn, mx, j, jn, jd, mdur, dfn, untl] =>
+    ({ st with c := { delay := int! d, maxDelay := int! md, delayFactor := f32 (int! fn) (int! fd), delayMin := int! mn, delayMax := int! mx,
+                      jitter := int! j, jitterFactor := f32 (int! jn) (int! jd), maxDuration := int! mdur, delayFn := int! dfn },
+               jfNum := int! jn, jfDen := int! jd, fnUntil := nat! untl }, none)
   | ["seq", n, step] =>
     match obs with
     | none => (st, none)
